@@ -107,14 +107,14 @@ def add(con, name, build, check, ctx, rejects=False):
         real = sx.real_args[1]
         return C.Pred(lambda res: check(real, res), "structure preserving translation")
 
-    c = Case(f"{name},{ctx.name}", [SELF, INP], spec, kwargs={"context": Built([], (lambda c_: lambda env: c_)(ctx), lambda a: "ctx", lambda a: None)})
+    c = Case(f"{name},{ctx.name}", [SELF, INP], spec, kwargs={"context": Built([], (lambda c_: lambda env: c_)(ctx), lambda a: "ctx", lambda a: None)}, props=PROPS)
     c.native = False
     c.may_reject = AssertionError
     c.interp_flags = {"class_call_models": CLASS_MODELS}
     con.cases.append(c)
 
 
-con = contract(QUAL, PROPS)
+con = contract(QUAL, PROPS + ("C08",))
 for ctx in (CTX.SEQUENTIAL, CTX.CONCURRENT):
     # expressions
     add(con, "BinOp", lambda: SObj(ir.BinOp, _op=ir.BinOp.Operator.SUB, _lhs=M("lhs"), _rhs=M("rhs"), _result=M("res")),
@@ -185,3 +185,76 @@ for ctx in (CTX.SEQUENTIAL, CTX.CONCURRENT):
             add(con, f"SelectWith{'-default' if with_default else ''}->{res_kind.__name__}", mk_sel, sel_ok, ctx)
     add(con, "Assert", lambda: SObj(ir.Assert, _cond=M("c"), _msg="msg"),
         lambda i, r: is_node(r, VR.Assert, msg="msg", cond=lambda t: is_node(t, VR.Boolean, arg=val(i.fields["_cond"]))), ctx)
+
+
+# ---- C08: an expression node is a DEFINITE assignment of its result ---------------------------------------------------------
+# The IR-level analysis (detect_uninitialized_temporaries) counts every ir.Expression as writing its result on the path it
+# stands on.  The emitted statement must therefore assign the result on EVERY path through it -- for the one expression
+# that is lowered to a control statement (SelectWith in a sequential context -> case) every choice including `others`.
+def assigns_on_every_path(stmt, result):
+    if is_node(stmt, VR.VariableAssignment) or is_node(stmt, VR.SignalAssignment):
+        return tgt(result)(stmt.fields["target"])
+    if is_node(stmt, VR.CodeBlock):
+        return any(assigns_on_every_path(s, result) for s in stmt.fields["stmts"])
+    if is_node(stmt, VR.CaseWhen):
+        d = stmt.fields["default"]
+        return d is not None and assigns_on_every_path(d, result) and all(assigns_on_every_path(b[1], result) for b in stmt.fields["branches"])
+    if is_node(stmt, VR.If):
+        return stmt.fields["orelse"] is not None and assigns_on_every_path(stmt.fields["body"], result) and assigns_on_every_path(stmt.fields["orelse"], result)
+    return False
+
+
+def add_total(con, name, build):
+    INP = Built([], lambda env: build(), lambda a: "<ir>", lambda a: None)
+    SELF = Built([], lambda env: SObj(VA._StmtAssembler), lambda a: "<asm>", lambda a: None)
+
+    def spec(sx, self, inp, **kw):
+        real = sx.real_args[1]
+        return C.Pred(lambda res: assigns_on_every_path(res, real.fields["_result"]), "the emitted statement assigns the expression's result on every path")
+
+    c = Case(f"definite-assignment:{name},SEQUENTIAL", [SELF, INP], spec, kwargs={"context": Built([], lambda env: CTX.SEQUENTIAL, lambda a: "ctx", lambda a: None)}, props=("C08",))
+    c.native = False
+    c.interp_flags = {"class_call_models": CLASS_MODELS}
+    c.custom_replay = "contracts.c02_assembler.replay_select_keeps_stale_value"
+    c.finding_key = "select_with-without-default-in-a-sequential-context"
+    con.cases.append(c)
+
+
+add_total(con, "BinOp", lambda: SObj(ir.BinOp, _op=ir.BinOp.Operator.SUB, _lhs=M("lhs"), _rhs=M("rhs"), _result=M("res")))
+add_total(con, "Compare", lambda: SObj(ir.Compare, _op=ir.Compare.Operator.LT, _lhs=M("lhs"), _rhs=M("rhs"), _result=M("res")))
+add_total(con, "Boolean", lambda: SObj(ir.Boolean, _arg=M("arg"), _result=M("res")))
+for with_default in (True, False):
+    for n in (1, 2):
+        add_total(con, f"SelectWith-{n}-choices{'-default' if with_default else '-nodefault'}",
+                  (lambda n=n, with_default=with_default: SObj(ir.SelectWith, _arg=M("sel"), _branches=[[f"choice{j}", M(f"v{j}")] for j in range(n)], _default=M("dv") if with_default else None, _result=M("res"))))
+
+_SELECT_SEQ = '''
+from __future__ import annotations
+from cohdl import Entity, Port, BitVector, Bit, std
+
+class Top(Entity):
+    clk = Port.input(Bit)
+    s = Port.input(BitVector[2])
+    a = Port.input(BitVector[4])
+    y = Port.output(BitVector[4])
+    def architecture(self):
+        @std.sequential(std.Clock(self.clk))
+        def logic():
+            self.y <<= std.select(self.s, {"00": self.a, "01": ~self.a})
+
+text = std.VhdlCompiler.to_string(Top)
+proc = text[text.index("logic: process"):]
+print("OTHERS_NULL" if "when others =>\\n          null;" in proc or "when others =>" in proc and "null;" in proc.split("when others =>")[1][:30] else "OTHERS_ASSIGNS")
+import re
+m = re.search(r"buffer_y <= (\\w+);", proc)
+print("READS", m.group(1) if m else None)
+'''
+
+
+def replay_select_keeps_stale_value(payload):
+    """std.select without default inside a clocked process: the result variable is assigned in the listed choices only
+    (`when others => null;`) and read afterwards, so for an unlisted selector the output gets the value of an earlier clock"""
+    from contracts.c06_extra import _run_design
+
+    rc, out = _run_design(_SELECT_SEQ)
+    return {"reproduced": rc == 0 and "OTHERS_NULL" in out and "READS" in out and "None" not in out, "detail": out[-300:]}
